@@ -175,8 +175,14 @@ pub fn run_c01(ctx: &Ctx) {
             continue;
         }
         let mut rng = case_rng(ctx.seed, 0xC01, i);
-        let rate = pick_rate(&mut rng, i);
-        let lg = gen_line(&mut rng, rate);
+        // "lead-in length" is unbounded in the property: one case in 40 lets the receiver run for 136..160 s
+        // (longer than the forced-EOM timeout) before the transmission starts; at a low rate to bound the cost
+        let long_lead = i % 40 == 39;
+        let rate = if long_lead { *rng.pick(&[8000u32, 11025, 16000]) } else { pick_rate(&mut rng, i) };
+        let mut lg = gen_line(&mut rng, rate);
+        if long_lead {
+            lg.lead_in = 136.0 + rng.unit() * 24.0;
+        }
         let hdr = if i % 16 == 0 { gen_header(&mut rng, 31, 8) } else { gen_header_any(&mut rng) };
         let h = hdr.text().into_bytes();
         let voice_gap = match rng.below(4) {
@@ -768,6 +774,8 @@ pub fn run_long(ctx: &Ctx) {
         "silence", "noise", "tone_mark", "programme", "repeated_preambles", "valid_char_carrier", "further_header", "trailer_late", "fsk_garbage_carrier", "preamble_forever", "lone_bursts", "valid_char_bursts",
         // no message is ever opened: decode errors / lone bursts, then > 135 s of other audio (C04: no EndOfMessage may appear)
         "noheader_err_silence", "noheader_err_noise", "noheader_lone_trailer",
+        // a complete transmission that begins only after the receiver has run for more than 135 s
+        "noheader_late_transmission",
     ];
     let n = if ctx.tier_thorough { 120 } else { kinds.len() };
     for i in 0..n {
@@ -815,6 +823,27 @@ pub fn run_long(ctx: &Ctx) {
             "noheader_lone_trailer" => {
                 a.burst(16, b"NNNN", &mut rng);
                 a.silence(follow, &mut rng);
+            }
+            "noheader_late_transmission" => {
+                if rng.chance(1, 2) {
+                    a.silence(follow, &mut rng)
+                } else {
+                    noise(&mut a, &mut rng, follow)
+                }
+                a.silence(1.0, &mut rng);
+                for k in 0..3 {
+                    a.burst(16, &h, &mut rng);
+                    if k < 2 {
+                        a.silence(lg.pause, &mut rng);
+                    }
+                }
+                a.silence(2.0 + rng.unit() * 8.0, &mut rng);
+                for k in 0..3 {
+                    a.burst(16, b"NNNN", &mut rng);
+                    if k < 2 {
+                        a.silence(lg.pause, &mut rng);
+                    }
+                }
             }
             "silence" => a.silence(follow, &mut rng),
             "noise" => noise(&mut a, &mut rng, follow),
@@ -1473,7 +1502,22 @@ pub fn run_phase(ctx: &Ctx) {
         lg.line.baud_err = 0.0;
         // 16 half-symbol phases: the start of the audio is shifted by k/2 symbols modulo a byte
         let half_syms = i % 16;
-        let payload = if i % 5 == 4 { b"NNNN".to_vec() } else { gen_header_any(&mut rng).text().into_bytes() };
+        let payload = if i % 5 == 4 {
+            b"NNNN".to_vec()
+        } else if i % 5 == 3 {
+            // data right after the prefix that looks like the preamble at another bit phase: `W`, `]`, `u` are
+            // bit rotations of 0xAB (sent LSb first), so the correlator sees a sync word at a non-byte boundary
+            // while the framer has only just opened the burst
+            let mut p = if rng.chance(3, 4) { b"ZCZC".to_vec() } else { b"NNNN".to_vec() };
+            let rot = *rng.pick(b"W]u");
+            for _ in 0..rng.range(3, 12) {
+                p.push(if rng.chance(5, 6) { rot } else { *rng.pick(b"W]u") });
+            }
+            p.extend((0..rng.range(0, 20)).map(|_| *rng.pick(CALL_CHARS)));
+            p
+        } else {
+            gen_header_any(&mut rng).text().into_bytes()
+        };
         let mut a = Audio::new(lg.line.clone());
         a.silence(0.3 + (half_syms as f64) * 0.5 / BAUD, &mut rng);
         let kind = (i / 16) % 5;
